@@ -64,7 +64,7 @@ FORMATS = ["csc", "csr", "coo", "lil", "dia"]
 def cases(seed, tier):
     rng = random.Random(seed * 15485863 + 8)
     quick = tier == "quick"
-    n_tri, n_flat, n_poly, n_vol, n_graph = (220, 40, 30, 64, 46) if quick else (36000, 6000, 3000, 11000, 4000)
+    n_tri, n_flat, n_poly, n_vol, n_graph = (220, 40, 30, 64, 46) if quick else (28000, 5000, 2500, 9000, 3500)
     out = []
     # anchors: the smallest inputs of each kind (one element, two elements, smallest closed surface), every history
     for h in ("fresh", "shared", "angles"):
